@@ -127,6 +127,10 @@ func (e *omegaEnv) dataLen(v ssa.Value) string {
 			args := x.Call.Args
 			return exprStr(args[len(args)-1], shapeOpts)
 		}
+		// a module helper that always returns the same number of bytes, whatever its arguments
+		if n, ok := bfConstResultLen(x.Call.StaticCallee()); ok {
+			return fmt.Sprint(n)
+		}
 	case *ssa.MakeSlice:
 		return exprStr(x.Len, shapeOpts)
 	}
@@ -894,16 +898,57 @@ func (e *omegaEnv) ruleRangeCheckShape(rule string) {
 		if f == nil {
 			continue
 		}
-		// the page-access query and the loop that walks the pages
-		var acc *ssa.Call
+		// where a page's state is consulted: the access query, or a direct look-up in the page table
+		var queries []ssa.Instruction
+		pageArg := map[ssa.Instruction]ssa.Value{}
 		allInstrs(f, func(in ssa.Instruction) {
-			if call, ok := in.(*ssa.Call); ok && call.Call.StaticCallee() != nil && call.Call.StaticCallee().Name() == "GetPageAccess" {
-				acc = call
+			switch x := in.(type) {
+			case *ssa.Call:
+				if sc := x.Call.StaticCallee(); sc != nil && sc.Name() == "GetPageAccess" {
+					queries = append(queries, in)
+					pageArg[in] = x.Call.Args[len(x.Call.Args)-1]
+				}
+			case *ssa.Lookup:
+				if _, isMap := x.X.Type().Underlying().(*types.Map); isMap && strings.Contains(exprStr(x.X, shapeOpts), ".Pages") {
+					queries = append(queries, in)
+					pageArg[in] = x.Index
+				}
 			}
 		})
-		if acc == nil {
+		if len(queries) == 0 {
 			c.Bad(rule, "PVM."+n+" · range test", f.Pos(), "no page-access query")
 			continue
+		}
+		// the state of every page, as the rule values it: (mapped, access)
+		pageState := func(mapped, access int64) atomFn {
+			return func(s string) (int64, bool) {
+				switch {
+				case pageAccessCallRe.MatchString(s):
+					if mapped == 0 {
+						return 0, true
+					}
+					return access, true
+				case strings.Contains(s, ".Pages[") && strings.HasSuffix(s, "]#1"):
+					return mapped, true
+				case strings.Contains(s, ".Pages[") && strings.HasSuffix(s, ".Access"):
+					return access, true
+				}
+				return 0, false
+			}
+		}
+		withRange := func(start, ln int64, st atomFn) atomFn {
+			return func(s string) (int64, bool) {
+				switch s {
+				case "p0":
+					return start, true
+				case "p1":
+					return ln, true
+				}
+				if st != nil {
+					return st(s)
+				}
+				return 0, false
+			}
 		}
 		// (1) the range guard: a page is consulted exactly when 0 < len <= 2^32 and start <= 2^32 − len; len = 0 gives true, a rejected range false
 		bad := ""
@@ -915,16 +960,13 @@ func (e *omegaEnv) ruleRangeCheckShape(rule string) {
 				}
 				us, ul := uint64(start), uint64(ln)
 				rejected := ul > uint64(RAM) || us > uint64(RAM)-ul
-				av := func(s string) (int64, bool) {
-					switch s {
-					case "p0":
-						return start, true
-					case "p1":
-						return ln, true
+				av := withRange(start, ln, nil)
+				consulted := false
+				for _, q := range queries {
+					if some, _ := reachFromEntry(q, shapeOpts, av); some {
+						consulted = true
 					}
-					return 0, false
 				}
-				consulted, _ := reachFromEntry(acc, shapeOpts, av)
 				want := ul != 0 && !rejected
 				if consulted != want {
 					bad = fmt.Sprintf("start=%d len=%d: pages are consulted=%v; the GP range test (len ≤ 2^32 ∧ start ≤ 2^32 − len, len ≠ 0) gives %v", us, ul, consulted, want)
@@ -945,95 +987,65 @@ func (e *omegaEnv) ruleRangeCheckShape(rule string) {
 			}
 		}
 		c.Check(bad == "", rule, "PVM."+n+" · range test", f.Pos(), "len = 0 → true; len > 2^32 or start > 2^32 − len → false; otherwise pages are consulted (121 boundary valuations)", bad)
-		// (2) the pages walked: from ⌊start/ZP⌋ up to and including ⌊(start+len−1)/ZP⌋
-		h, in := natLoop(acc.Block())
+		// (2) the pages consulted, every page passing: exactly ⌊start/ZP⌋ .. ⌊(start+len−1)/ZP⌋, in whatever order
 		bad = ""
-		if h == nil {
-			bad = "the page query is not inside a loop over the pages of the range"
-		} else {
-			var pphi *ssa.Phi
-			for _, ins := range h.Instrs {
-				if ph, ok := ins.(*ssa.Phi); ok && stripConv(acc.Call.Args[len(acc.Call.Args)-1]) == ssa.Value(ph) {
-					pphi = ph
+		for _, st := range []int64{0, 1, ZP - 1, ZP, 5*ZP + 7, RAM - 3*ZP - 1} {
+			for _, ln := range []int64{1, 2, ZP, ZP + 1, 3 * ZP} {
+				if bad != "" || uint64(st) > uint64(RAM)-uint64(ln) {
+					continue
 				}
-			}
-			var first, last ssa.Value
-			inclusive := false
-			if pphi != nil {
-				for k, e := range pphi.Edges {
-					if !in[h.Preds[k]] {
-						first = e
-					}
-				}
-				if ifi, ok := h.Instrs[len(h.Instrs)-1].(*ssa.If); ok {
-					if bo, ok := ifi.Cond.(*ssa.BinOp); ok {
-						switch {
-						case stripConv(bo.X) == ssa.Value(pphi) && bo.Op == token.LEQ:
-							last, inclusive = bo.Y, true
-						case stripConv(bo.Y) == ssa.Value(pphi) && bo.Op == token.GEQ:
-							last, inclusive = bo.X, true
-						case stripConv(bo.X) == ssa.Value(pphi) && bo.Op == token.LSS:
-							last = bo.Y
+				seen := map[int64]int{}
+				undecided := false
+				r, ok := runWithAtomsEnv(f, shapeOpts, withRange(st, ln, pageState(1, 2)), func(in ssa.Instruction, env intEnv) {
+					if a, isQ := pageArg[in]; isQ {
+						if k, okk := evalInt(a, env, 0); okk {
+							seen[int64(uint32(k))]++
+						} else {
+							undecided = true
 						}
 					}
-				}
-			}
-			if first == nil || last == nil {
-				bad = "the loop over the pages of the range was not recognised (page counter, first page, last page)"
-			} else {
-				for _, st := range []int64{0, 1, ZP - 1, ZP, 5*ZP + 7, RAM - ZP - 1} {
-					for _, ln := range []int64{1, 2, ZP, ZP + 1, 3 * ZP} {
-						if uint64(st) > uint64(RAM)-uint64(ln) {
-							continue
-						}
-						env := intEnv{params: map[ssa.Value]int64{f.Params[0]: st, f.Params[1]: ln}, lens: map[ssa.Value]int64{}, unknown: map[ssa.Value]bool{}, cells: map[ssa.Value]int64{}}
-						a, ok1 := evalInt(first, env, 0)
-						b, ok2 := evalInt(last, env, 0)
-						wantLast := (st + ln - 1) / ZP
-						if !inclusive {
-							wantLast++
-						}
-						if !ok1 || !ok2 || a != st/ZP || b != wantLast {
-							bad = fmt.Sprintf("start=%d len=%d: pages %d..%d (evaluable=%v) are walked; the range covers pages %d..%d", st, ln, a, b, ok1 && ok2, st/ZP, (st+ln-1)/ZP)
-						}
-					}
-				}
-			}
-		}
-		c.Check(bad == "", rule, "PVM."+n+" · pages", f.Pos(), "walks pages ⌊start/ZP⌋ .. ⌊(start+len−1)/ZP⌋", bad)
-		// (3) the page predicate: a page rejects the range iff it is inaccessible (read) / not read-write (write)
-		bad = ""
-		var falseRet *ssa.Return
-		allInstrs(f, func(ins ssa.Instruction) {
-			if r, ok := ins.(*ssa.Return); ok && len(r.Results) == 1 {
-				if k, isC := r.Results[0].(*ssa.Const); isC && k.Value != nil && k.Value.String() == "false" {
-					if h != nil && in[r.Block().Preds[0]] || h != nil && in[r.Block()] {
-						falseRet = r
-					}
-				}
-			}
-		})
-		if falseRet == nil {
-			bad = "no rejection inside the page loop"
-		} else {
-			for _, a := range []int64{0, 1, 2} {
-				reached, ok := iterReaches(falseRet, shapeOpts, nil, func(s string) (int64, bool) {
-					if pageAccessCallRe.MatchString(s) {
-						return a, true
-					}
-					return 0, false
 				})
-				want := a == 0
-				if n == "isWriteable" {
-					want = a != 2
+				first, last := st/ZP, (st+ln-1)/ZP
+				good := ok && !undecided && int64(len(seen)) == last-first+1
+				for p := first; p <= last && good; p++ {
+					good = seen[p] > 0
 				}
-				if !ok || reached != want {
-					bad = fmt.Sprintf("a page with access %d rejects the range=%v (decidable=%v); expected %v", a, reached, ok, want)
-					break
+				if good && r != nil {
+					if k, isC := r.Results[0].(*ssa.Const); !isC || k.Value == nil || k.Value.String() != "true" {
+						good = false
+					}
+				}
+				if !good {
+					var ps []string
+					for p := range seen {
+						ps = append(ps, fmt.Sprint(p))
+					}
+					sort.Strings(ps)
+					bad = fmt.Sprintf("start=%d len=%d, every page read-write: pages {%s} are consulted (evaluable=%v) and the result is not true for exactly the pages %d..%d", st, ln, strings.Join(ps, ","), ok && !undecided, first, last)
 				}
 			}
 		}
-		c.Check(bad == "", rule, "PVM."+n+" · access predicate", f.Pos(), "a page rejects the range exactly when it is "+map[string]string{"isReadable": "inaccessible", "isWriteable": "not read-write"}[n]+" (3/3 rows)", bad)
+		c.Check(bad == "", rule, "PVM."+n+" · pages", f.Pos(), "consults exactly the pages ⌊start/ZP⌋ .. ⌊(start+len−1)/ZP⌋ (26 ranges evaluated, any order)", bad)
+		// (3) the page predicate: a page rejects the range iff it is unmapped or inaccessible (read) / not read-write (write)
+		bad = ""
+		for _, row := range [][2]int64{{0, 0}, {0, 2}, {1, 0}, {1, 1}, {1, 2}} {
+			mapped, access := row[0], row[1]
+			r, ok := runWithAtoms(f, shapeOpts, withRange(5*ZP+7, 1, pageState(mapped, access)), nil)
+			wantOK := mapped == 1 && access != 0
+			if n == "isWriteable" {
+				wantOK = mapped == 1 && access == 2
+			}
+			if !ok || len(r.Results) != 1 {
+				bad = fmt.Sprintf("page mapped=%d access=%d: the result does not follow from the page's state", mapped, access)
+				break
+			}
+			k, isC := r.Results[0].(*ssa.Const)
+			if !isC || k.Value == nil || (k.Value.String() == "true") != wantOK {
+				bad = fmt.Sprintf("page mapped=%d access=%d: result %s, expected %v", mapped, access, exprStr(r.Results[0], shapeOpts), wantOK)
+				break
+			}
+		}
+		c.Check(bad == "", rule, "PVM."+n+" · access predicate", f.Pos(), "a page rejects the range exactly when it is "+map[string]string{"isReadable": "unmapped or inaccessible", "isWriteable": "unmapped or not read-write"}[n]+" (5/5 rows)", bad)
 		// returns: constants only
 		rs := returnShapes(f)["ret"]
 		c.Check(strings.Join(rs, ",") == "false,true", rule, "PVM."+n+" · results", f.Pos(), "returns only constants true/false", "unexpected return shapes "+strings.Join(rs, ","))
